@@ -191,6 +191,7 @@ func (v *FnV) sp(st *State, e *SExpr, sc *Scope) Value {
 		}
 		q := st.fork()
 		q.quiet = true
+		nq := len(q.items)
 		if len(e.Vars) == 1 && t != nil && isIntType(t) {
 			// "forall k :: ... s[k] ..." is encoded over the ABSOLUTE position a = off(s)+k, so that
 			// the instantiation pattern is (select arr a) without arithmetic inside it.
@@ -211,6 +212,20 @@ func (v *FnV) sp(st *State, e *SExpr, sc *Scope) Value {
 			}
 		}
 		body := v.spBool(q, e.Args[0], sc.with(vars))
+		// symbols declared while evaluating the body (a variable read for the first time, a heap of
+		// a new epoch) must exist in the enclosing script as well
+		if !st.quiet {
+			for _, it := range q.items[nq:] {
+				if it.Decl != "" {
+					st.items = append(st.items, it)
+				}
+			}
+			for o, val := range q.env {
+				if _, ok := st.env[o]; !ok {
+					st.env[o] = val
+				}
+			}
+		}
 		if e.Op == "forall" {
 			return Value{T: tBool, S: fmt.Sprintf("(forall (%s) %s)", strings.Join(binders, " "), sImp(sAnd(ranges...), body))}
 		}
@@ -628,7 +643,7 @@ func (v *FnV) spCall(st *State, e *SExpr, sc *Scope) Value {
 		}
 		// quantified variables stay visible
 		for k, val := range sc.vars {
-			if strings.HasSuffix(val.S, "!q") {
+			if strings.Contains(val.S, "!q") {
 				osc.vars[k] = val
 			}
 		}
@@ -655,6 +670,14 @@ func (v *FnV) spCall(st *State, e *SExpr, sc *Scope) Value {
 	case "cap":
 		a := arg(0)
 		return Value{T: tInt, S: sx("slcap", a.S)}
+	case "haskey":
+		m, k := arg(0), arg(1)
+		mt, ok := m.T.Underlying().(*types.Map)
+		if !ok {
+			sfail("haskey: map expected")
+		}
+		_, present := v.mapLookup(st, mt, m, v.specConv(st, k, mt.Key()))
+		return Value{T: tBool, S: present}
 	case "istype":
 		a := arg(0)
 		t, err := v.specType(args[1].VType, sc.pkg)
